@@ -50,12 +50,18 @@ type c13Case struct {
 	Steps []c13Step `json:"steps"`
 	// optionally a small page cache, so that reads also evict and reload pages
 	Cache int `json:"cache,omitempty"`
+	// LogWatch: the physical writes to the log file are watched (hook VerifWrapLog): whenever the flusher
+	// writes a page or the header, every byte statements have appended to the log so far must have been
+	// handed to the log file. 2 = the store is opened the way csvimport -disable-wal-fsync opens it
+	// (OpenRelation(db, false)) and the statements reach it through the session object
+	LogWatch int `json:"log_watch,omitempty"`
 }
 
 func c13Gen(rt *rapid.T) c13Case {
 	cfg := gen.HistCfg{MaxTables: 3, MaxCols: 3, Direct: false, RowCounts: []int{1, 2, 4, 9, 10}, Small: true}
 	db := model.NewDB()
 	var c c13Case
+	c.LogWatch = rapid.SampledFrom([]int{0, 0, 1, 2, 2}).Draw(rt, "logwatch")
 	if rapid.IntRange(0, 7).Draw(rt, "bulk") == 3 {
 		// long statements: a table of several hundred rows, then statements that
 		// touch all of it, each held open early so that a tick is already waiting
@@ -244,9 +250,24 @@ func c13Run(c c13Case, st *vlib.Stats) string {
 	var flusherSeqs []int64
 	var flusherWhat []string
 	noCreate := int64(0) // 1 while the running statement is not a CREATE TABLE
+	var logAppended, logWritten int64 // bytes statements appended to the log / bytes handed to the log file
 	storage.VerifHook = func(point string, arg uint64) {
 		gid := curGID()
 		n := atomic.AddInt64(&seq, 1)
+		switch point {
+		case "wal.write":
+			atomic.AddInt64(&logAppended, int64(arg))
+		case "wal.fwrite":
+			atomic.AddInt64(&logWritten, int64(arg))
+		case "page.write", "header.write":
+			if c.LogWatch > 0 && gid != sess {
+				if a, w := atomic.LoadInt64(&logAppended), atomic.LoadInt64(&logWritten); w < a {
+					mu.Lock()
+					violations = append(violations, fmt.Sprintf("%s on the flusher goroutine while %d of the %d bytes that statements had appended to the log were not yet handed to the log file: a page reached the data file before the log append of the statement that changed it was complete (around statement %d)", point, a-w, a, atomic.LoadInt64(&stmtIdx)))
+					mu.Unlock()
+				}
+			}
+		}
 		if gid == sess {
 			if atomic.LoadInt64(&firstSess) == 0 {
 				atomic.StoreInt64(&firstSess, n)
@@ -310,10 +331,20 @@ func c13Run(c c13Case, st *vlib.Stats) string {
 		}
 	}
 	storage.VerifNoTimer = false
-	if err := eng.Exec("USE " + DBName); err != nil {
+	if c.LogWatch == 2 {
+		// the store as a program using the Go API opens it, without the per-statement fsync
+		rs, err := storage.OpenRelation(DBName, false)
+		if err != nil {
+			return "OpenRelation failed: " + err.Error()
+		}
+		eng.Sess.CurDB, eng.Sess.RelationService = DBName, rs
+	} else if err := eng.Exec("USE " + DBName); err != nil {
 		return "USE failed: " + err.Error()
 	}
 	defer eng.Shutdown()
+	if c.LogWatch > 0 {
+		eng.RS().VerifWrapLog()
+	}
 	if c.Cache > 0 {
 		eng.RS().VerifSetCacheSize(c.Cache)
 	}
@@ -446,6 +477,9 @@ func c13Run(c c13Case, st *vlib.Stats) string {
 		labels = append(labels, "flusher-was-waiting-during-park")
 	}
 	st.AddExtra("parks_with_flusher_waiting", int(fa))
+	if c.LogWatch > 0 {
+		labels = append(labels, map[int]string{1: "log-file-writes-watched", 2: "log-file-writes-watched(store opened without fsync, Go API)"}[c.LogWatch])
+	}
 	st.Record(b, parkedDML > 0 && fa > 0, labels...)
 	if len(v) > 0 {
 		return v[0]
